@@ -66,10 +66,10 @@ func zzC03XSame(a, b Object) bool {
 		return ok && (*big.Rat)(ta).Cmp((*big.Rat)(tb)) == 0
 	case SingleFloat:
 		tb, ok := b.(SingleFloat)
-		return ok && math.Float32bits(float32(ta)) == math.Float32bits(float32(tb))
+		return ok && ta == tb && (ta != 0 || 1/ta == 1/tb) // same value, same sign of zero
 	case DoubleFloat:
 		tb, ok := b.(DoubleFloat)
-		return ok && math.Float64bits(float64(ta)) == math.Float64bits(float64(tb))
+		return ok && ta == tb && (ta != 0 || 1/ta == 1/tb) // same value, same sign of zero
 	case *LongFloat:
 		tb, ok := b.(*LongFloat)
 		return ok && (*big.Float)(ta).Cmp((*big.Float)(tb)) == 0 && (*big.Float)(ta).Signbit() == (*big.Float)(tb).Signbit()
@@ -81,7 +81,7 @@ func zzC03XSame(a, b Object) bool {
 		return ok && ta == tb
 	case Symbol:
 		tb, ok := b.(Symbol)
-		return ok && len(ta) == len(tb) && zzC03Fold([]byte(zzC03Lower(string(ta))), zzC03Lower(string(tb)))
+		return ok && zzC03Lower(string(ta)) == zzC03Lower(string(tb))
 	case List:
 		tb, ok := b.(List)
 		if !ok || len(ta) != len(tb) {
@@ -304,13 +304,29 @@ func zzC03Gcd(a, b int64) int64 {
 	return a
 }
 
+func zzC03XSingle(i int) float32 {
+	if i == 1 {
+		z := float32(0)
+		return -z // negative zero
+	}
+	return zzC03XSingles[i]
+}
+
+func zzC03XDouble(i int) float64 {
+	if i == 1 {
+		z := float64(0)
+		return -z // negative zero
+	}
+	return zzC03XDoubles[i]
+}
+
 var zzC03XSingles = []float32{
-	0, float32(math.Copysign(0, -1)), math.SmallestNonzeroFloat32, 1.1754942e-38, 1.17549435e-38, math.MaxFloat32,
+	0, 0, math.SmallestNonzeroFloat32, 1.1754942e-38, 1.17549435e-38, math.MaxFloat32,
 	16777215, 16777216, 16777218, 1.0 / 3.0, 0.1, 1e21, 1e-7, -1.5, 1e10, 123456.7, 1, -2.5e-5,
 }
 
 var zzC03XDoubles = []float64{
-	0, math.Copysign(0, -1), math.SmallestNonzeroFloat64, 2.225073858507201e-308, 2.2250738585072014e-308, math.MaxFloat64,
+	0, 0, math.SmallestNonzeroFloat64, 2.225073858507201e-308, 2.2250738585072014e-308, math.MaxFloat64,
 	9007199254740991, 9007199254740992, 9007199254740994, 1.0 / 3.0, 0.1, 1e21, 1e-7, -1.5, 1e22, 1e23, 123456789.125, 1, -2.5e-5,
 	float64(float32(0.1)), 5e-324 * 3,
 }
@@ -365,27 +381,41 @@ func VerifC03XFloat(kind int, idx int, ff int) {
 	var obj Object
 	switch kind {
 	case 0:
-		obj = SingleFloat(zzC03XSingles[idx])
+		obj = SingleFloat(zzC03XSingle(idx))
 	case 1:
-		obj = DoubleFloat(zzC03XDoubles[idx])
+		obj = DoubleFloat(zzC03XDouble(idx))
 	default:
 		obj = zzC03XLong(idx)
 	}
 	p := zzC03Printer(true)
 	text := p.Append(nil, obj, 0)
 	if lf, ok := obj.(*LongFloat); ok {
-		// region of the known defect: the reader gives a long-float 3.32 bits per mantissa
-		// character of the token, which is fewer bits than the value needs
-		cnt := 0
-		for _, c := range text {
+		// Region of the known defect.  The reader gives a long-float token 3.32 bits per
+		// mantissa character and rounds the decimal text to that many bits, the printer writes
+		// the shortest text that identifies the value at the value's own precision: the two only
+		// agree when the text is the exact decimal expansion of the value and the reader's
+		// precision is enough for it.
+		cnt, end := 0, len(text)
+		for i, c := range text {
 			if c == 'L' || c == 'l' || c == 'e' {
+				end = i
 				break
 			}
 			if c != '-' && c != '+' {
 				cnt++
 			}
 		}
-		vrt.Carve("C03-long-float-loses-bits", uint(3.32*float64(cnt)) < (*big.Float)(lf).MinPrec())
+		dec := string(text[:end])
+		if end < len(text) {
+			dec += "e" + string(text[end+1:])
+		}
+		exact := false
+		if lit, ok2 := new(big.Rat).SetString(dec); ok2 {
+			if val, _ := (*big.Float)(lf).Rat(nil); val != nil {
+				exact = lit.Cmp(val) == 0
+			}
+		}
+		vrt.Carve("C03-long-float-loses-bits", !exact || uint(3.32*float64(cnt)) < (*big.Float)(lf).MinPrec())
 	}
 	out := zzC03XRead(text, 10, ff)
 	vrt.Reach("read")
